@@ -124,7 +124,7 @@ def random_case(rng, tier):
         crash_on_played = sorted({rng.randint(1, 3) for _ in range(rng.randint(0, 1))})
     return {'program': program, 'crashes': crashes, 'media': media, 'loader': rng.choice(['default', 'default', 'custom']),
             'pauses': pauses, 'crash_paused': crash_paused, 'pause_in_step': pause_in_step, 'crash_on_paused': crash_on_paused,
-            'crash_on_played': crash_on_played, 'lag': lag, 'tags': tags, 'lose_at': lose_at}
+            'crash_on_played': crash_on_played, 'lag': lag, 'tags': tags, 'lose_at': lose_at, 'detached': rng.random() < 0.2}
 
 
 def shrink(case):
@@ -181,7 +181,7 @@ def run(case):
                                 pauses=case.get('pauses'), crash_paused=case.get('crash_paused'),
                                 pause_in_step=case.get('pause_in_step'), crash_on_paused=case.get('crash_on_paused'),
                                 crash_on_played=case.get('crash_on_played'), lag=case.get('lag'), tags=case.get('tags'),
-                                lose_at=case.get('lose_at'))
+                                lose_at=case.get('lose_at'), detached=case.get('detached'))
     try:
         proc = runner.run()
         if runner.runaway is not None:
@@ -217,6 +217,8 @@ def run(case):
                 result.counters['crash:lagged_behind_checkpoint'] += 1
             if event[0] in ('crash', 'checkpoint') and str(event[3]).startswith('persister'):
                 result.counters[f'medium:{event[3]}'] += 1
+        if case.get('detached') and runner.restores:
+            result.counters['probe:restored_into_a_loop_that_is_not_the_current_one'] += 1
         for state in runner.crash_states:
             result.counters[f'crash:{state if not state.startswith("paused") else "paused"}'] += 1
         if any(v > 1 for v in case['crashes'].values()) and runner.restores >= 2:
